@@ -21,7 +21,7 @@ Deliverables, per property <ID>, in /tmp/mut/{name}/out/<ID>/ :
   patch.diff   (git -C /tmp/mut/{name}/repo diff, ONLY that property's change; paths relative to the repo root so that `git apply` works in another checkout)
   demo/        (the demonstration + a README.md with the exact commands to run it and the outputs you observed with and without the change)
   meta.json    {{"property": "<ID>", "summary": "...what was changed...", "needs_to_manifest": "...the specific input/sequence/schedule/fault...", "tests_run": ["commands..."], "tests_result": "..."}}
-Work on one property at a time: make the change, build, run tests + demo, save the deliverables, then `git -C /tmp/mut/{name}/repo checkout -- .` (and remove any files you added) before the next one. When all are done, delete /tmp/mut/{name}/target (it is large) but KEEP the worktree and out/. Your final message: for each property, 3-5 lines: what you changed, what it needs to manifest, tests run and their result, where the deliverables are. If you could not produce a valid change for a property, say so plainly.
+Work on one property at a time: make the change, build, run tests + demo, save the deliverables, then `git -C /tmp/mut/{name}/repo checkout -- .` (and remove any files you added) before the next one. When all are done KEEP the worktree (clean), the target dir and out/. Your final message: for each property, 3-5 lines: what you changed, what it needs to manifest, tests run and their result, where the deliverables are. If you could not produce a valid change for a property, say so plainly.
 
 THE PROPERTIES
 """)
